@@ -133,7 +133,19 @@ pub struct Node {
     pub exp_status: u32,
 }
 
+/// How the root GameState object is produced (the three public ways to get a play-phase state).
+#[derive(Clone, Debug)]
+pub enum RootHow {
+    /// GameState::new + PlayPhase::initial + Zobrist::from_piece_board (what from_str does, without the regex)
+    Constructed,
+    /// parsed from the printed diagram with GameState::from_str
+    Parsed,
+    /// GameState::initial() followed by these 32 placements (Gold's 16 letters, then Silver's 16)
+    Setup(String),
+}
+
 pub struct RootInfo {
+    pub how: RootHow,
     pub explorer: &'static str,
     pub family: String,
     pub idx: u64,
@@ -186,7 +198,18 @@ impl<'a> Ctx<'a> {
             family: self.root.family.clone(),
             root_idx: self.root.idx,
             root: rm::diagram(&self.root.board, self.root.gold, self.root.move_number),
-            config: self.root.config.clone(),
+            config: {
+                let mut c = self.root.config.clone();
+                if c.is_null() {
+                    c = serde_json::json!({});
+                }
+                c["root_built_by"] = match &self.root.how {
+                    RootHow::Constructed => serde_json::json!("constructors"),
+                    RootHow::Parsed => serde_json::json!("from_str"),
+                    RootHow::Setup(o) => serde_json::json!({"setup": o}),
+                };
+                c
+            },
             actions,
             what: what.to_string(),
             observed,
@@ -196,7 +219,17 @@ impl<'a> Ctx<'a> {
 }
 
 pub fn root_node(root: &RootInfo) -> Node {
-    let gs = state_from_board(&root.board, root.gold, root.move_number);
+    let gs = match &root.how {
+        RootHow::Constructed => state_from_board(&root.board, root.gold, root.move_number),
+        RootHow::Parsed => rm::diagram(&root.board, root.gold, root.move_number).parse::<GameState>().expect("printed root diagram parses"),
+        RootHow::Setup(order) => {
+            let mut g = GameState::initial();
+            for c in order.chars() {
+                g = g.take_action(&c.to_string().parse::<Action>().expect("placement letter"));
+            }
+            g
+        }
+    };
     let r = raw(gs.piece_board());
     Node {
         gs,
@@ -1046,10 +1079,11 @@ pub fn parse_link(ctx: &mut Ctx, node: &Node, via: Option<&Action>) {
     }
 }
 
-/// Seen-key of a node within one root (E1).
-pub type TurnKey = (Raw, u8, u32, bool, u64);
+/// Seen-key of a node within one root (E1).  For multi-turn runs the turn index, side and turn-start board are part
+/// of the key (within a bound of two turns the history of a state is exactly {root, its turn-start board}).
+pub type TurnKey = (Raw, u8, u32, bool, u64, bool, u8, Raw);
 
-pub fn turn_key(n: &Node) -> TurnKey {
+pub fn turn_key(n: &Node, multi_turn: bool) -> TurnKey {
     let pp = n.gs.as_play_phase();
     (
         raw(n.gs.piece_board()),
@@ -1057,5 +1091,8 @@ pub fn turn_key(n: &Node) -> TurnKey {
         pp.map_or(0, |p| pps_code(p.push_pull_state())),
         pp.map_or(false, |p| p.piece_trapped_this_turn()),
         n.pset.code(),
+        n.gold,
+        if multi_turn { n.hist.len() as u8 } else { 0 },
+        if multi_turn { n.snaps[0] } else { [0; 8] },
     )
 }
